@@ -2,6 +2,7 @@ package main
 
 import (
 	"fmt"
+	"sort"
 	"go/token"
 	"go/types"
 	"strings"
@@ -584,4 +585,129 @@ func rulePayeeKey(c *Ctx) {
 		}
 	}
 	c.census("I-PAYEEKEY", "values that merge a transaction's payee and description", n, 2)
+}
+
+// ruleDiskReaders (D-READ): every reader of journal files hands the parser the same text for the same bytes.  The
+// include loader, the workspace (initial scan and files that become reachable later) and the save handler each read
+// files with os.ReadFile; what is parsed must not depend on which of them happened to read the file (a byte order
+// mark stripped by the loader but not by the workspace's second reader makes the incremental view differ from a
+// rebuild).  For every os.ReadFile whose bytes reach a parse, the rule collects the module functions and
+// strings/bytes transformations the data passes through on the way; all read sites must agree.
+func ruleDiskReaders(c *Ctx) {
+	ci := buildConc(c)
+	reachesParse := map[*ssa.Function]bool{}
+	parseFn := c.P.SSAFunc("internal/parser", "Parse")
+	if parseFn == nil {
+		c.undecided("D-READ", "parser", "parser entry point", token.NoPos, "parser.Parse not found")
+		return
+	}
+	for _, f := range ci.funcs {
+		if Reach(ci.g, []*ssa.Function{f}, true)[parseFn] {
+			reachesParse[f] = true
+		}
+	}
+	type site struct {
+		f      *ssa.Function
+		pos    token.Pos
+		trans  []string
+		parsed bool
+	}
+	var sites []site
+	for _, f := range ci.funcs {
+		for _, b := range f.Blocks {
+			for _, ins := range b.Instrs {
+				call, ok := ins.(*ssa.Call)
+				if !ok {
+					continue
+				}
+				cal := call.Call.StaticCallee()
+				if cal == nil || cal.Pkg == nil || cal.Pkg.Pkg.Path() != "os" || cal.Name() != "ReadFile" {
+					continue
+				}
+				st := site{f: f, pos: call.Pos()}
+				seen := map[ssa.Value]bool{}
+				var follow func(v ssa.Value, depth int)
+				follow = func(v ssa.Value, depth int) {
+					if v == nil || seen[v] || depth > 8 || v.Referrers() == nil {
+						return
+					}
+					seen[v] = true
+					for _, r := range *v.Referrers() {
+						switch x := r.(type) {
+						case *ssa.Extract:
+							if x.Index == 0 {
+								follow(x, depth+1)
+							}
+						case *ssa.Convert:
+							follow(x, depth+1)
+						case *ssa.ChangeType:
+							follow(x, depth+1)
+						case *ssa.Phi:
+							follow(x, depth+1)
+						case *ssa.Store:
+							// a local that carries the text
+							if al, ok := x.Addr.(*ssa.Alloc); ok && x.Val == v && al.Referrers() != nil {
+								for _, r2 := range *al.Referrers() {
+									if ld, ok := r2.(*ssa.UnOp); ok && ld.Op == token.MUL {
+										follow(ld, depth+1)
+									}
+								}
+							}
+						case *ssa.Call:
+							cal2 := x.Call.StaticCallee()
+							if cal2 == nil {
+								continue
+							}
+							isText := func(t types.Type) bool {
+								ts := types.TypeString(t, nil)
+								return ts == "string" || ts == "[]byte"
+							}
+							switch {
+							case inModule(cal2) && reachesParse[cal2]:
+								st.parsed = true
+							case inModule(cal2) && x.Type() != nil && isText(x.Type()):
+								st.trans = append(st.trans, funcName(cal2))
+								follow(x, depth+1)
+							case cal2.Pkg != nil && (cal2.Pkg.Pkg.Path() == "strings" || cal2.Pkg.Pkg.Path() == "bytes") && isText(x.Type()):
+								st.trans = append(st.trans, cal2.Pkg.Pkg.Path()+"."+cal2.Name())
+								follow(x, depth+1)
+							}
+						}
+					}
+				}
+				follow(call, 0)
+				if st.parsed {
+					sort.Strings(st.trans)
+					sites = append(sites, st)
+				}
+			}
+		}
+	}
+	c.census("D-READ", "file reads whose bytes reach the parser", len(sites), 3)
+	if len(sites) == 0 {
+		return
+	}
+	count := map[string]int{}
+	for _, s := range sites {
+		count[strings.Join(s.trans, ",")]++
+	}
+	best, bestN := "", -1
+	for k, n := range count {
+		if n > bestN || (n == bestN && k < best) {
+			best, bestN = k, n
+		}
+	}
+	for _, s := range sites {
+		k := strings.Join(s.trans, ",")
+		c.check(k == best, "D-READ", funcName(s.f), "file text reaches the parser as in every other reader", s.pos,
+			"the bytes read from disk pass through the same transformations as at the other read sites ("+orNone(best)+")",
+			"this reader hands the parser a text that went through ["+orNone(k)+"] while the other readers of journal files use ["+orNone(best)+"]: the same file is understood differently depending on who read it - a fresh workspace (or the include loader) and the incremental update path disagree")
+	}
+}
+
+func orNone(s string) string {
+	if s == "" {
+		return "no transformation"
+	}
+	return s
 }
